@@ -165,8 +165,9 @@ func runImplOnce(c answersCase, answersTimeout time.Duration) string {
 // the program itself as text (consulting replaces the definitions).  false = the text could not be
 // loaded this way (e.g. clauses of one predicate are not contiguous): the caller falls back to assertz.
 func reconsult(i *prolog.Interpreter, c answersCase, gq *gt, limit time.Duration) bool {
+	wi, buf := newInterp("") // one writer for the whole case
 	show := func(t *gt) (string, bool) {
-		wi, buf := newInterp("")
+		buf.Reset()
 		if r := solveOnce(&wi.VM, compound("write_term", gtToEngine(t, map[int]engine.Variable{}),
 			engine.List(compound("quoted", atom("true")), compound("ignore_ops", atom("true"))))); r != "true" {
 			return "", false
